@@ -256,7 +256,8 @@ fn run_case(c: &mut dyn Choices, ctx: &Ctx) -> Outcome {
           labels.push("silent-stream:parked-before-the-end");
           nt = false;
           Verdict::Ok
-        } else if silent && tr.counters.stream_polls > 0 {
+        } else if silent && (tr.counters.stream_polls > 1 || (tr.counters.stream_polls > 0 && (tr.live_tasks_end > 0 || !tr.quiescent))) {
+          // (one poll that is followed by the task's retirement is within the property: "at most one further poll")
           Verdict::Violation {
             sig: format!("not-retired:{pname}:{pos}"),
             detail: format!("the stream had ended before the stream task first ran, but the task polled the never-ready stream {} time(s) (and stays parked on it: {} scheduled task(s) alive at the end)", tr.counters.stream_polls, tr.live_tasks_end),
